@@ -66,6 +66,10 @@ func PermissionedProxy(validPerms, defaultPerms []Permission, in interface{}, ou
 				}
 			}
 			if HasPerm(ctx, defaultPerms, requiredPerm) {
+				if field.Type.IsVariadic() {
+					// MakeFunc hands the variadic arguments over as one slice
+					return fn.CallSlice(args)
+				}
 				return fn.Call(args)
 			}
 
